@@ -37,7 +37,8 @@ CONSTANTS
   SmpChoices,     \* subset of BOOLEAN for roots
   CrossThread,    \* may a thread use span handles created by another thread?
   TrackCut,       \* feed ring pushes / drains to the ghost (needed for the cut signature)
-  FixRecv, FixFifo, FixCancelDefault, FixEmptyToken, FixStackFull, FixForceStart, FixReentrant,
+  FixRecv, FixFifo, FixCancelDefault, FixEmptyToken, FixStackFull, FixForceStart, FixReentrant, FixInSpan, FixExitOrder,
+  AdapterKinds, InnerKinds, MaxFuts, MaxPolls,
   None
 
 Zero == 0
@@ -54,6 +55,7 @@ VARIABLES
   hs,       \* thread -> stack of open handles [k: "g"|"c"|"l", n, live] (what the caller holds)
   spans,    \* name -> thread-safe span [tok, cid, props, st]
   lsets,    \* name -> collected local spans
+  futs,     \* name -> adapter [h, kind, done, polls]: a span bound to a future / stream / sink (in_span), or enter_on_poll
   cph, ci, batch, cown,   \* collector: phase, receiver index, batch, owner (0 = background, t = flush by t)
   active,   \* collect id -> [colls, dang]
   nid,      \* thread -> names handed out so far (names are 100 * t + k: independent of the interleaving)
@@ -62,9 +64,9 @@ VARIABLES
   a,        \* ghost: Abs state
   hist      \* behaviour so far (for replay)
 
-vars == <<tst, reg, ring, pend, cur, inop, stack, hs, spans, lsets, cph, ci, batch, cown, active,
+vars == <<tst, reg, ring, pend, cur, inop, stack, hs, spans, lsets, futs, cph, ci, batch, cown, active,
           nid, nops, natt, ncyc, nfl, pc, quiet, a, hist>>
-view == <<tst, reg, ring, pend, cur, inop, stack, hs, spans, lsets, cph, ci, batch, cown, active,
+view == <<tst, reg, ring, pend, cur, inop, stack, hs, spans, lsets, futs, cph, ci, batch, cown, active,
           nid, nops, natt, ncyc, nfl, pc, quiet, a>>
 
 NS == 99    \* NOT_SAMPLED_COLLECT_ID
@@ -77,7 +79,7 @@ Init ==
   /\ ring = [t \in Threads |-> <<>>] /\ pend = [t \in Threads |-> <<>>]
   /\ cur = [t \in Threads |-> <<>>] /\ inop = [t \in Threads |-> None]
   /\ stack = [t \in Threads |-> <<>>] /\ hs = [t \in Threads |-> <<>>]
-  /\ spans = A!EmptyFn /\ lsets = A!EmptyFn
+  /\ spans = A!EmptyFn /\ lsets = A!EmptyFn /\ futs = A!EmptyFn
   /\ cph = "idle" /\ ci = 0 /\ batch = <<>> /\ cown = 0
   /\ active = A!EmptyFn
   /\ nid = [t \in Threads |-> 0] /\ nops = 0 /\ natt = 0 /\ ncyc = 0 /\ nfl = 0 /\ pc = [t \in Threads |-> 1]
@@ -113,7 +115,7 @@ Attempt(cs, r, p) ==
   LET c == Head(cs) full == Len(r) >= K IN
   IF c.mode = "exit"
   THEN \* Sender::drop: parked commands front to back, dropped when the ring is full
-       IF full THEN <<r, Tail(p), IF Len(p) = 1 THEN <<>> ELSE cs, FALSE, None>>
+       IF full THEN (IF FixExitOrder THEN <<r, <<>>, <<>>, FALSE, None>> ELSE <<r, Tail(p), IF Len(p) = 1 THEN <<>> ELSE cs, FALSE, None>>)
        ELSE <<Append(r, Head(p)), Tail(p), IF Len(p) = 1 THEN <<>> ELSE cs, FALSE, Head(p)>>
   ELSE IF c.stage = "replay" /\ p # <<>>
   THEN LET x == IF FixFifo THEN Head(p) ELSE Last(p)
@@ -185,7 +187,7 @@ Root(t, tr, smp) ==
   /\ Begin(t, IF rec /\ smp THEN <<IF FixForceStart THEN Force(start) ELSE Send(start)>> ELSE <<>>,
            Ev(t, "root") @@ [h |-> h, tr |-> tr, smp |-> smp, rpar |-> 1000 + tr],
            Rt(t, "root") @@ (IF rec THEN [h |-> h, cid |-> cid, id |-> h] ELSE [h |-> h]))
-  /\ UNCHANGED <<stack, hs, lsets, natt>>
+  /\ UNCHANGED <<stack, hs, lsets, futs, natt>>
 
 \* a root created from an extracted context: SpanContext::from_span(src) (src a span handle), or
 \* SpanContext::current_local_parent() (src = 0); w3c: through encode / decode of a traceparent
@@ -208,7 +210,7 @@ RootCtx(t, src, w3c) ==
            Ev(t, "rootctx") @@ [h |-> h, w3c |-> w3c] @@ (IF src = 0 THEN A!EmptyFn ELSE [src |-> src]),
            (IF boom THEN [panic |-> "index out of bounds"] ELSE A!EmptyFn) @@
            Rt(t, "rootctx") @@ [ctx |-> ctx] @@ (IF rec THEN [h |-> h, cid |-> cid, id |-> h] ELSE [h |-> h]))
-  /\ UNCHANGED <<stack, hs, lsets, natt>>
+  /\ UNCHANGED <<stack, hs, lsets, futs, natt>>
 
 Child(t, ps, multi) ==
   LET h == New(t)
@@ -220,7 +222,7 @@ Child(t, ps, multi) ==
   /\ Bump(t)
   /\ Begin(t, <<>>, Ev(t, "child") @@ [h |-> h, ps |-> ps, multi |-> multi],
            Rt(t, "child") @@ (IF ~noop /\ tok # <<>> THEN [h |-> h, id |-> h] ELSE [h |-> h]))
-  /\ UNCHANGED <<stack, hs, lsets, natt>>
+  /\ UNCHANGED <<stack, hs, lsets, futs, natt>>
 
 \* Span::enter_with_local_parent: the top span line's token with the cursor as parent
 ChildLocal(t) ==
@@ -232,13 +234,13 @@ ChildLocal(t) ==
   /\ Bump(t)
   /\ Begin(t, <<>>, Ev(t, "childl") @@ [h |-> h],
            Rt(t, "childl") @@ (IF has /\ tok # <<>> THEN [h |-> h, id |-> h] ELSE [h |-> h]))
-  /\ UNCHANGED <<stack, hs, lsets, natt>>
+  /\ UNCHANGED <<stack, hs, lsets, futs, natt>>
 
 MkNoop(t) ==
   /\ spans' = A!Put(spans, New(t), [tok |-> <<>>, cid |-> 0, props |-> <<>>, st |-> "noop", own |-> t])
   /\ Bump(t)
   /\ Begin(t, <<>>, Ev(t, "mknoop") @@ [h |-> New(t)], Rt(t, "mknoop"))
-  /\ UNCHANGED <<stack, hs, lsets, natt>>
+  /\ UNCHANGED <<stack, hs, lsets, futs, natt>>
 
 SetLp(t, h) ==
   LET g == New(t)
@@ -250,7 +252,7 @@ SetLp(t, h) ==
   /\ hs' = [hs EXCEPT ![t] = Append(@, [k |-> "g", n |-> g, live |-> live, full |-> (spans[h].st = "live" /\ ~live)])]
   /\ Bump(t)
   /\ Begin(t, <<>>, Ev(t, "setlp") @@ [g |-> g, h |-> h], Rt(t, "setlp"))
-  /\ UNCHANGED <<spans, lsets, natt>>
+  /\ UNCHANGED <<spans, lsets, futs, natt>>
 
 DropG(t) ==
   LET x == TopH(t)
@@ -261,7 +263,7 @@ DropG(t) ==
   /\ hs' = [hs EXCEPT ![t] = Front(@)]
   /\ Begin(t, cmds, Ev(t, "dropg") @@ [g |-> x.n],
            IF x.full /\ ~FixStackFull THEN Rt(t, "dropg") @@ [panic |-> "debug_assert token.is_some()"] ELSE Rt(t, "dropg"))
-  /\ UNCHANGED <<spans, lsets, nid, natt>>
+  /\ UNCHANGED <<spans, lsets, futs, nid, natt>>
 
 LcStart(t) ==
   LET c == New(t) live == Enabled /\ Len(stack[t]) < SCap IN
@@ -270,7 +272,7 @@ LcStart(t) ==
   /\ hs' = [hs EXCEPT ![t] = Append(@, [k |-> "c", n |-> c, live |-> live, full |-> FALSE])]
   /\ Bump(t)
   /\ Begin(t, <<>>, Ev(t, "lcstart") @@ [c |-> c], Rt(t, "lcstart"))
-  /\ UNCHANGED <<spans, lsets, natt>>
+  /\ UNCHANGED <<spans, lsets, futs, natt>>
 
 LcCollect(t) ==
   LET x == TopH(t) ls == New(t) IN
@@ -280,7 +282,7 @@ LcCollect(t) ==
   /\ hs' = [hs EXCEPT ![t] = Front(@)]
   /\ Bump(t)
   /\ Begin(t, <<>>, Ev(t, "lccollect") @@ [c |-> x.n, ls |-> ls], Rt(t, "lccollect"))
-  /\ UNCHANGED <<spans, natt>>
+  /\ UNCHANGED <<spans, natt, futs>>
 
 LcDrop(t) ==
   LET x == TopH(t) IN
@@ -288,7 +290,7 @@ LcDrop(t) ==
   /\ stack' = IF x.live THEN [stack EXCEPT ![t] = Front(@)] ELSE stack
   /\ hs' = [hs EXCEPT ![t] = Front(@)]
   /\ Begin(t, <<>>, Ev(t, "lcdrop") @@ [c |-> x.n], Rt(t, "lcdrop"))
-  /\ UNCHANGED <<spans, lsets, nid, natt>>
+  /\ UNCHANGED <<spans, lsets, futs, nid, natt>>
 
 LineOk(t) == stack[t] # <<>> /\ Top(t).smp
 HasRoom(t) == Len(Top(t).q) < QCap
@@ -301,7 +303,7 @@ LEnter(t) ==
   /\ hs' = [hs EXCEPT ![t] = Append(@, [k |-> "l", n |-> l, live |-> live, full |-> FALSE])]
   /\ Bump(t)
   /\ Begin(t, <<>>, Ev(t, "lenter") @@ [l |-> l], Rt(t, "lenter") @@ (IF live THEN [l |-> l, id |-> l] ELSE [l |-> l]))
-  /\ UNCHANGED <<spans, lsets, natt>>
+  /\ UNCHANGED <<spans, lsets, futs, natt>>
 
 LExit(t) ==
   LET x == TopH(t) IN
@@ -311,7 +313,7 @@ LExit(t) ==
               ELSE stack
   /\ hs' = [hs EXCEPT ![t] = Front(@)]
   /\ Begin(t, <<>>, Ev(t, "lexit") @@ [l |-> x.n], Rt(t, "lexit"))
-  /\ UNCHANGED <<spans, lsets, nid, natt>>
+  /\ UNCHANGED <<spans, lsets, futs, nid, natt>>
 
 LEvent(t, withp) ==
   LET n == New(t) ok == LineOk(t) /\ HasRoom(t)
@@ -320,7 +322,7 @@ LEvent(t, withp) ==
   /\ stack' = IF ok THEN SetTop(t, [Top(t) EXCEPT !.q = Append(@, [id |-> 0, par |-> Top(t).nxt, k |-> "event", n |-> n, props |-> evt.props])]) ELSE stack
   /\ Bump(t)
   /\ Begin(t, <<>>, Ev(t, "levent") @@ [evt |-> evt], Rt(t, "levent"))
-  /\ UNCHANGED <<spans, lsets, hs>>
+  /\ UNCHANGED <<spans, lsets, futs, hs>>
 
 \* `re`: the property closure itself calls into fastrace (current_local_parent()), as a closure that
 \* logs through a fastrace-aware logger or calls a #[trace] function does
@@ -333,7 +335,7 @@ LProps(t, re) ==
   /\ Begin(t, <<>>, Ev(t, "lprops") @@ [kvs |-> <<KV(n)>>, re |-> re],
            (IF boom THEN [panic |-> "already borrowed: BorrowMutError"] ELSE A!EmptyFn) @@
            Rt(t, "lprops") @@ [kvs |-> <<KV(n)>>, cc |-> IF LineOk(t) THEN 1 ELSE 0])
-  /\ UNCHANGED <<spans, lsets, hs>>
+  /\ UNCHANGED <<spans, lsets, futs, hs>>
 
 \* LocalSpan::with_properties on the innermost local span the caller holds
 LWith(t, re) ==
@@ -348,7 +350,7 @@ LWith(t, re) ==
   /\ Begin(t, <<>>, Ev(t, "lwith") @@ [l |-> x.n, kvs |-> <<KV(n)>>, re |-> re],
            (IF boom THEN [panic |-> "already borrowed: BorrowMutError"] ELSE A!EmptyFn) @@
            Rt(t, "lwith") @@ [l |-> x.n, kvs |-> <<KV(n)>>, cc |-> IF x.live THEN 1 ELSE 0])
-  /\ UNCHANGED <<spans, lsets, hs>>
+  /\ UNCHANGED <<spans, lsets, futs, hs>>
 
 \* Span::add_event / add_properties: a pseudo child span submitted at once
 SAttach(t, h, kind, withp) ==
@@ -364,7 +366,7 @@ SAttach(t, h, kind, withp) ==
                 Rt(t, "sevent") @@ [h |-> h, evt |-> [name |-> n, props |-> raw.props]])
      ELSE Begin(t, cmds, Ev(t, "sprops") @@ [h |-> h, kvs |-> <<KV(n)>>],
                 Rt(t, "sprops") @@ [h |-> h, kvs |-> <<KV(n)>>, cc |-> IF spans[h].st = "live" THEN 1 ELSE 0])
-  /\ UNCHANGED <<spans, lsets, stack, hs>>
+  /\ UNCHANGED <<spans, lsets, futs, stack, hs>>
 
 SWith(t, h) ==
   LET n == New(t) IN
@@ -373,18 +375,18 @@ SWith(t, h) ==
   /\ Bump(t)
   /\ Begin(t, <<>>, Ev(t, "swith") @@ [h |-> h, kvs |-> <<KV(n)>>],
            Rt(t, "swith") @@ [h |-> h, kvs |-> <<KV(n)>>, cc |-> IF spans[h].st = "live" THEN 1 ELSE 0])
-  /\ UNCHANGED <<lsets, stack, hs>>
+  /\ UNCHANGED <<lsets, futs, stack, hs>>
 
 PushC(t, h, ls) ==
   LET tok == IF spans[h].st = "live" THEN Sampled(Issue(h)) ELSE <<>>
       cmds == IF lsets[ls] # <<>> /\ tok # <<>> THEN <<Send(Submit(lsets[ls], tok))>> ELSE <<>> IN
   /\ Begin(t, cmds, Ev(t, "pushc") @@ [h |-> h, ls |-> ls], Rt(t, "pushc"))
-  /\ UNCHANGED <<spans, lsets, stack, hs, nid, natt>>
+  /\ UNCHANGED <<spans, lsets, futs, stack, hs, nid, natt>>
 
 Cancel(t, h) ==
   LET cmds == IF spans[h].st = "live" /\ spans[h].cid # 0 THEN <<Force([k |-> "drop", c |-> spans[h].cid])>> ELSE <<>> IN
   /\ Begin(t, cmds, Ev(t, "cancel") @@ [h |-> h], Rt(t, "cancel"))
-  /\ UNCHANGED <<spans, lsets, stack, hs, nid, natt>>
+  /\ UNCHANGED <<spans, lsets, futs, stack, hs, nid, natt>>
 
 DropSpan(t, h) ==
   LET s == spans[h]
@@ -394,7 +396,7 @@ DropSpan(t, h) ==
               (IF s.st = "live" /\ s.cid # 0 THEN <<Force([k |-> "commit", c |-> s.cid])>> ELSE <<>>) IN
   /\ spans' = [spans EXCEPT ![h].st = "done"]
   /\ Begin(t, cmds, Ev(t, "drop") @@ [h |-> h], Rt(t, "drop"))
-  /\ UNCHANGED <<lsets, stack, hs, nid, natt>>
+  /\ UNCHANGED <<lsets, futs, stack, hs, nid, natt>>
 
 \* SpanContext::current_local_parent / from_span
 CtxL(t) ==
@@ -404,25 +406,101 @@ CtxL(t) ==
       ctx == IF has /\ tok # <<>> THEN [some |-> TRUE, tr |-> tok[1].tr, id |-> tok[1].par, smp |-> tok[1].smp] ELSE [some |-> FALSE] IN
   /\ Begin(t, <<>>, Ev(t, "ctxl"),
            IF boom THEN Rt(t, "ctxl") @@ [ctx |-> ctx, panic |-> "index out of bounds"] ELSE Rt(t, "ctxl") @@ [ctx |-> ctx])
-  /\ UNCHANGED <<spans, lsets, stack, hs, nid, natt>>
+  /\ UNCHANGED <<spans, lsets, futs, stack, hs, nid, natt>>
 
 CtxS(t, h) ==
   LET tok == IF spans[h].st = "live" THEN Issue(h) ELSE <<>>
       ctx == IF tok # <<>> THEN [some |-> TRUE, tr |-> tok[1].tr, id |-> h, smp |-> tok[1].smp] ELSE [some |-> FALSE] IN
   /\ Begin(t, <<>>, Ev(t, "ctxs") @@ [h |-> h], Rt(t, "ctxs") @@ [h |-> h, ctx |-> ctx])
-  /\ UNCHANGED <<spans, lsets, stack, hs, nid, natt>>
+  /\ UNCHANGED <<spans, lsets, futs, stack, hs, nid, natt>>
+
+----------------------------------------------------------------------------
+(* adapters: future.rs (InSpan, EnterOnPoll), fastrace-futures (Stream / Sink InSpan).             *)
+(* A poll is one call: set_local_parent(span), the inner poll (a scripted inner future that does   *)
+(* `inner`), and - when the inner completes (fin) - the span is dropped.  The pinned code drops    *)
+(* the span before the local-parent guard; FixInSpan releases the guard first.                     *)
+FNew(t, h, kind) ==
+  LET f == New(t) IN
+  /\ futs' = A!Put(futs, f, [h |-> h, kind |-> kind, done |-> FALSE, polls |-> 0])
+  /\ Bump(t)
+  /\ Begin(t, <<>>, Ev(t, "fnew") @@ [f |-> f, h |-> h, kind |-> kind], Rt(t, "fnew"))
+  /\ UNCHANGED <<spans, lsets, stack, hs, natt>>
+
+\* what the scripted inner does on span line ln (has = there is a line); n = fresh name
+\* returns <<line', events>>
+Inner(t, ln, has, inner, n) ==
+  LET ok == has /\ ln.smp /\ Len(ln.q) < QCap IN
+  CASE inner = "ls" ->
+         <<IF ok THEN [ln EXCEPT !.q = Append(@, [id |-> n, par |-> ln.nxt, k |-> "span", n |-> n, props |-> <<>>])] ELSE ln,
+           <<Ev(t, "lenter") @@ [l |-> n], (Rt(t, "lenter") @@ (IF ok THEN [l |-> n, id |-> n] ELSE [l |-> n])),
+             Ev(t, "lexit") @@ [l |-> n], Rt(t, "lexit") @@ [l |-> n]>>>>
+    [] inner = "ev" ->
+         <<IF ok THEN [ln EXCEPT !.q = Append(@, [id |-> 0, par |-> ln.nxt, k |-> "event", n |-> n, props |-> <<>>])] ELSE ln,
+           <<Ev(t, "levent") @@ [evt |-> [name |-> n, props |-> <<>>]], Rt(t, "levent") @@ [evt |-> [name |-> n, props |-> <<>>]]>>>>
+    [] inner = "ctx" ->
+         LET tok == IF has /\ ~ln.lc THEN CurTok(ln) ELSE <<>>
+             ctx == IF tok # <<>> THEN [some |-> TRUE, tr |-> tok[1].tr, id |-> tok[1].par, smp |-> tok[1].smp] ELSE [some |-> FALSE] IN
+         <<ln, <<Ev(t, "ctxl"), Rt(t, "ctxl") @@ [ctx |-> ctx]>>>>
+    [] OTHER -> <<ln, <<>>>>
+
+FPoll(t, f, inner, fin) ==
+  LET fu == futs[f] h == fu.h g == New(t) n == New(t) + 1
+      live == ~fu.done /\ fu.kind # "eop" /\ spans[h].st = "live" /\ Len(stack[t]) < SCap
+      tok == IF live THEN Issue(h) ELSE <<>>
+      fresh == [lc |-> FALSE, tok |-> tok, smp |-> AnySmp(tok), q |-> <<>>, nxt |-> 0]
+      \* in_span: the inner runs on the adapter's own line; otherwise on whatever line is on top
+      hasTop == stack[t] # <<>>
+      base == IF live THEN fresh ELSE IF hasTop THEN Top(t) ELSE fresh
+      has == live \/ hasTop
+      \* enter_on_poll: a local span around the inner poll
+      eop == fu.kind = "eop"
+      eok == eop /\ has /\ base.smp /\ Len(base.q) < QCap
+      base1 == IF eok THEN [base EXCEPT !.q = Append(@, [id |-> g, par |-> base.nxt, k |-> "span", n |-> g, props |-> <<>>]), !.nxt = g] ELSE base
+      r == Inner(t, base1, has, inner, n)
+      ln == IF eok THEN [r[1] EXCEPT !.nxt = base.nxt] ELSE r[1]
+      finish == fin /\ ~fu.done /\ ~eop
+      sub == Sampled(tok)
+      locals == IF live /\ sub # <<>> THEN <<Send(Submit(ln.q, sub))>> ELSE <<>>
+      sp == spans[h]
+      stok == IF finish /\ sp.st = "live" THEN Sampled(sp.tok) ELSE <<>>
+      own == (IF stok # <<>> THEN <<Send(Submit(<<[id |-> h, par |-> 0, k |-> "span", n |-> h, props |-> sp.props]>>, stok))>> ELSE <<>>) \o
+             (IF finish /\ sp.st = "live" /\ sp.cid # 0 THEN <<Force([k |-> "commit", c |-> sp.cid])>> ELSE <<>>)
+      cmds == IF FixInSpan THEN locals \o own ELSE own \o locals
+      call == Ev(t, "fpoll") @@ [f |-> f, g |-> g, inner |-> inner, fin |-> fin]
+      evs == <<call>> \o r[2] \o <<Ev(t, "pollend") @@ [f |-> f, fin |-> fin]>>
+      gh == A!AbsRun(a, evs, 1) IN
+  /\ fu.polls < MaxPolls
+  /\ futs' = [futs EXCEPT ![f].done = @ \/ finish, ![f].polls = @ + 1]
+  /\ spans' = IF finish THEN [spans EXCEPT ![h].st = "done"] ELSE spans
+  /\ stack' = IF live \/ ~hasTop THEN stack ELSE SetTop(t, ln)
+  /\ nid' = [nid EXCEPT ![t] = @ + 2]
+  /\ hist' = Append(hist, call)
+  /\ Advance(t, cmds, gh, Rt(t, "fpoll") @@ call)
+  /\ UNCHANGED <<lsets, hs, natt>>
+
+\* the adapter is dropped: a span it still holds finishes
+FDrop(t, f) ==
+  LET fu == futs[f] h == fu.h sp == spans[h]
+      go == ~fu.done /\ fu.kind # "eop" /\ sp.st = "live"
+      stok == IF go THEN Sampled(sp.tok) ELSE <<>>
+      cmds == (IF stok # <<>> THEN <<Send(Submit(<<[id |-> h, par |-> 0, k |-> "span", n |-> h, props |-> sp.props]>>, stok))>> ELSE <<>>) \o
+              (IF go /\ sp.cid # 0 THEN <<Force([k |-> "commit", c |-> sp.cid])>> ELSE <<>>) IN
+  /\ futs' = [futs EXCEPT ![f].done = TRUE, ![f].polls = MaxPolls]
+  /\ spans' = IF fu.kind # "eop" /\ Usable(h) THEN [spans EXCEPT ![h].st = "done"] ELSE spans
+  /\ Begin(t, cmds, Ev(t, "fdrop") @@ [f |-> f], Rt(t, "fdrop"))
+  /\ UNCHANGED <<lsets, stack, hs, nid, natt>>
 
 \* thread exit: the sender's destructor flushes the overflow list, then the producer half goes away
 Exit(t) ==
   /\ hs[t] = <<>>
   /\ Begin(t, IF pend[t] = <<>> THEN <<>> ELSE <<[mode |-> "exit", cmd |-> None, stage |-> "exit"]>>, Ev(t, "exit"), Rt(t, "exit"))
-  /\ UNCHANGED <<spans, lsets, stack, hs, nid, natt>>
+  /\ UNCHANGED <<spans, lsets, futs, stack, hs, nid, natt>>
 
 Push(t) ==
   /\ cur[t] # <<>> /\ tst[t] = "live"
   /\ Advance(t, cur[t], a, inop[t])
   /\ hist' = Append(hist, [ev |-> "push", t |-> t])
-  /\ UNCHANGED <<reg, stack, hs, spans, lsets, cph, ci, batch, cown, active, nid, nops, natt, ncyc, nfl, pc, quiet>>
+  /\ UNCHANGED <<reg, stack, hs, spans, lsets, futs, cph, ci, batch, cown, active, nid, nops, natt, ncyc, nfl, pc, quiet>>
 
 ----------------------------------------------------------------------------
 (* the collector (global_collector.rs: handle_commands) *)
@@ -524,7 +602,7 @@ Cyc ==
   /\ LET g == A!AbsStep(a, [ev |-> "cycbegin"]) IN
      IF reg = <<>> THEN Finish(<<>>, g, 0)
      ELSE a' = g /\ cph' = "drain" /\ ci' = 1 /\ UNCHANGED <<batch, cown, active>>
-  /\ UNCHANGED <<tst, reg, ring, pend, cur, inop, stack, hs, spans, lsets, nid, nops, natt, nfl, pc, quiet>>
+  /\ UNCHANGED <<tst, reg, ring, pend, cur, inop, stack, hs, spans, lsets, futs, nid, nops, natt, nfl, pc, quiet>>
 
 Flush(t) ==
   /\ Enabled /\ Ready
@@ -534,7 +612,7 @@ Flush(t) ==
   /\ LET g == A!AbsStep(A!AbsStep(a, Ev(t, "flush")), [ev |-> "cycbegin"]) IN
      IF reg = <<>> THEN Finish(<<>>, g, t)
      ELSE a' = g /\ cph' = "drain" /\ ci' = 1 /\ cown' = t /\ UNCHANGED <<batch, active>>
-  /\ UNCHANGED <<tst, reg, ring, pend, cur, inop, stack, hs, spans, lsets, nid, nops, natt, ncyc, pc, quiet>>
+  /\ UNCHANGED <<tst, reg, ring, pend, cur, inop, stack, hs, spans, lsets, futs, nid, nops, natt, ncyc, pc, quiet>>
 
 GhostDrain(g, t) == IF TrackCut THEN A!AbsStep(g, [ev |-> "drain", t |-> t]) ELSE g
 
@@ -563,19 +641,23 @@ Col ==
           /\ ring' = IF dead THEN [ring EXCEPT ![t] = <<>>] ELSE ring
           /\ IF nxt > Len(reg1) THEN Finish(batch, a, cown)
              ELSE a' = a /\ cph' = "drain" /\ ci' = nxt /\ UNCHANGED <<batch, cown, active>>
-  /\ UNCHANGED <<tst, pend, cur, inop, stack, hs, spans, lsets, nid, nops, natt, ncyc, nfl, pc, quiet>>
+  /\ UNCHANGED <<tst, pend, cur, inop, stack, hs, spans, lsets, futs, nid, nops, natt, ncyc, nfl, pc, quiet>>
 
 Spawn(t) ==
   /\ tst[t] = "unborn" /\ cph = "idle"
   /\ tst' = [tst EXCEPT ![t] = "live"]
   /\ reg' = Append(reg, t)
   /\ hist' = Append(hist, [ev |-> "spawn", t |-> t])
-  /\ UNCHANGED <<ring, pend, cur, inop, stack, hs, spans, lsets, cph, ci, batch, cown, active, nid, nops, natt, ncyc, nfl, pc, quiet, a>>
+  /\ UNCHANGED <<ring, pend, cur, inop, stack, hs, spans, lsets, futs, cph, ci, batch, cown, active, nid, nops, natt, ncyc, nfl, pc, quiet, a>>
 
 ----------------------------------------------------------------------------
 (* programs *)
 M(n) == n \in Menu
-Handles(t) == {h \in DOMAIN spans : Usable(h) /\ Mine(t, h)}
+Bound(h) == \E f \in DOMAIN futs : futs[f].h = h
+\* nobody is inside a call on that span / adapter (a caller needs the object for the call's duration)
+FreeH(h) == \A u \in Threads : IF inop[u] = None THEN TRUE ELSE ~("h" \in DOMAIN inop[u] /\ inop[u].h = h)
+FreeF(f) == \A u \in Threads : IF inop[u] = None THEN TRUE ELSE ~("f" \in DOMAIN inop[u] /\ inop[u].f = f)
+Handles(t) == {h \in DOMAIN spans : Usable(h) /\ Mine(t, h) /\ ~Bound(h) /\ FreeH(h)}
 LiveH(t) == {h \in Handles(t) : spans[h].st = "live"}
 
 \* operations TLC may choose for thread t
@@ -608,6 +690,10 @@ MenuOp(t) ==
   \/ M("ctxl") /\ CtxL(t)
   \/ M("ctxs") /\ \E h \in Handles(t) : CtxS(t, h)
   \* somebody must remain to finish the spans that are still alive
+  \/ M("fnew") /\ \E h \in Handles(t), k \in AdapterKinds \ {"eop"} : Cardinality(DOMAIN futs) < MaxFuts /\ FNew(t, h, k)
+  \/ M("fnew") /\ "eop" \in AdapterKinds /\ Cardinality(DOMAIN futs) < MaxFuts /\ FNew(t, 0, "eop")
+  \/ M("fpoll") /\ \E f \in DOMAIN futs, i \in InnerKinds, fin \in BOOLEAN : FreeF(f) /\ (futs[f].polls < MaxPolls - 1 \/ fin) /\ FPoll(t, f, i, fin)
+  \/ M("fdrop") /\ \E f \in DOMAIN futs : FreeF(f) /\ futs[f].polls < MaxPolls /\ FDrop(t, f)
   \/ M("exit") /\ ((\E u \in Threads \ {t} : tst[u] = "live") \/ \A h \in DOMAIN spans : ~Usable(h)) /\ Exit(t)
 
 \* a fixed program step [op, args...]; handles are given as positions in creation order (nid values)
@@ -663,7 +749,8 @@ Teardown(t) ==
      THEN CASE TopH(t).k = "l" -> LExit(t)
             [] TopH(t).k = "g" -> DropG(t)
             [] TopH(t).k = "c" -> LcDrop(t)
-     ELSE LET S == {h \in DOMAIN spans : Usable(h) /\ (spans[h].own = t \/ tst[spans[h].own] = "dead")} IN
+     ELSE IF \E f \in DOMAIN futs : futs[f].polls < MaxPolls THEN FDrop(t, CHOOSE f \in DOMAIN futs : futs[f].polls < MaxPolls)
+     ELSE LET S == {h \in DOMAIN spans : Usable(h) /\ ~Bound(h) /\ (spans[h].own = t \/ tst[spans[h].own] = "dead")} IN
           IF S # {} THEN DropSpan(t, CHOOSE x \in S : \A y \in S : y <= x)   \* children before parents
           ELSE Exit(t)     \* every thread ends by exiting: parked commands are flushed
   /\ UNCHANGED <<reg, cph, ci, batch, cown, active, nops, ncyc, nfl, pc, quiet>>
@@ -692,7 +779,7 @@ QuietCycle ==
                                    deadrx |-> Cardinality({i \in DOMAIN d[1] : tst[d[1][i]] = "dead"})])
                ELSE g3 IN
      /\ reg' = d[1] /\ ring' = d[3] /\ active' = pr[1] /\ a' = g4
-  /\ UNCHANGED <<tst, pend, cur, inop, stack, hs, spans, lsets, cph, ci, batch, cown, nid, nops, natt, ncyc, nfl, pc>>
+  /\ UNCHANGED <<tst, pend, cur, inop, stack, hs, spans, lsets, futs, cph, ci, batch, cown, nid, nops, natt, ncyc, nfl, pc>>
 
 Done == AllQuiet /\ quiet = 2
 
